@@ -256,10 +256,19 @@ func sortStrings(s []string) {
 // connections before it waits has been done by then. For use from inside a handler.
 func CloseWhileBusy(srv *wire.Server) {
 	returned := make(chan struct{})
+	ident := make(chan string, 1)
 	go func() {
 		defer close(returned)
+		// (this goroutine's own header line, e.g. "goroutine 57 [": other Close calls may be parked in the process)
+		b := make([]byte, 64)
+		b = b[:runtime.Stack(b, false)]
+		if k := bytes.IndexByte(b, '['); k > 0 {
+			b = b[:k+1]
+		}
+		ident <- string(b)
 		srv.Close()
 	}()
+	me := <-ident
 	deadline := time.Now().Add(memnet.Watchdog)
 	buf := make([]byte, 1<<20)
 	for time.Now().Before(deadline) {
@@ -270,11 +279,8 @@ func CloseWhileBusy(srv *wire.Server) {
 		}
 		n := runtime.Stack(buf, true)
 		for _, g := range strings.Split(string(buf[:n]), "\n\n") {
-			if !strings.Contains(g, "psql-wire.(*Server).Close") {
-				continue
-			}
-			head, _, _ := strings.Cut(g, "\n")
-			if !strings.Contains(head, "[running]") && !strings.Contains(head, "[runnable]") {
+			// only a Close that has reached its wait for the commands in flight has done its work
+			if strings.HasPrefix(g, me) && strings.Contains(g, "sync.(*WaitGroup).Wait") {
 				return
 			}
 		}
